@@ -242,6 +242,107 @@ fn do_git(rep: &mut Report, g: &GitOracle, text: &str, what: &str) {
     }
 }
 
+/// Texts in the RFC 2822 grammar (the full one, not only what `format` prints): gitoxide must accept
+/// them, and where git accepts them too the instant and the offset must agree.
+fn do_git_rfc(rep: &mut Report, g: &GitOracle, text: &str) {
+    let parsed = do_parse(rep, text);
+    let git = g.author_time(text);
+    rep.git_checked(1);
+    rep.oracle_checked();
+    rep.bucket("rfc2822-variant");
+    let op = format!("parse {}", hex(text.as_bytes()));
+    match (parsed, git) {
+        (None, git) => rep.oracle_failure(
+            &format!("rfc2822-variant-rejected {text:?}"),
+            &format!(
+                "gix_date::parse refuses the RFC 2822 date {text:?}{}",
+                git.map_or(String::new(), |(s, o)| format!(", git reads it as {s} {o}"))
+            ),
+            &op,
+        ),
+        (Some(t), Some((gs, go))) => {
+            if text == "Thu, 18 Aug 2022 12:45:06 CEST" && (t.seconds != gs || t.offset != go) {
+                rep.oracle_failure(
+                    "rfc2822-zone-name-only-git-knows",
+                    &format!("{text:?}: gix_date::parse gives {} {} (unknown alphabetic zones count as +0000), git stores {gs} {go}", t.seconds, t.offset),
+                    &op,
+                );
+            } else if text == "Thu, 18 Aug 2022 12:45:06 Y (CST)" && (t.seconds != gs || t.offset != go) {
+                rep.oracle_failure(
+                    "rfc2822-zone-in-comment",
+                    &format!("{text:?}: gix_date::parse gives {} {} (the comment is a comment), git stores {gs} {go} (it takes the zone named in the comment)", t.seconds, t.offset),
+                    &op,
+                );
+            } else if t.seconds != gs || t.offset != go {
+                rep.oracle_failure(
+                    &format!("git-differs RFC2822-variant {text:?}"),
+                    &format!("gix_date::parse gives {} {}, git stores {gs} {go}", t.seconds, t.offset),
+                    &op,
+                );
+            }
+        }
+        (Some(t), None) => rep.outside_domain(&format!("RFC 2822 variant: git refuses {text:?} (gitoxide: {})", time_str(&t))),
+    }
+}
+
+const MONTHS: [&str; 12] = ["Jan", "Feb", "Mar", "Apr", "May", "Jun", "Jul", "Aug", "Sep", "Oct", "Nov", "Dec"];
+
+/// a valid RFC 2822 date between 1970 and 2099 in one of its non-canonical spellings
+fn gen_rfc_variant(r: &mut Rng) -> String {
+    let year = r.range(1970, 2099);
+    let month = r.range(1, 12) as usize;
+    let dim = [31, if year % 4 == 0 && year != 2100 { 29 } else { 28 }, 31, 30, 31, 30, 31, 31, 30, 31, 30, 31][month - 1];
+    let day = r.range(1, dim);
+    // not the first or last day of the range (offsets could move the instant out of git's 1970..2099)
+    let day = if (year == 1970 && month == 1 && day < 3) || (year == 2099 && month == 12 && day > 29) { 15 } else { day };
+    let (h, mi, sec) = (r.range(0, 23), r.range(0, 59), r.range(0, 59));
+    let mut s = String::new();
+    match r.below(4) {
+        0 => {}
+        1 => s.push_str(&format!("{}, ", r.pick(&["Mon", "Tue", "Wed", "Thu", "Fri", "Sat", "Sun"]))), // need not match the date
+        2 => s.push_str(&format!("{},  ", r.pick(&["mon", "TUE", "wEd", "thu", "FRI", "sat", "SUN"]))),
+        _ => s.push_str(&format!("{}, ", r.pick(&["Mon", "Thu", "Sun"]))),
+    }
+    s.push_str(&if r.chance(1, 2) { format!("{day}") } else { format!("{day:02}") });
+    s.push(' ');
+    let mon = MONTHS[month - 1];
+    s.push_str(&match r.below(3) {
+        0 => mon.to_lowercase(),
+        1 => mon.to_uppercase(),
+        _ => mon.to_string(),
+    });
+    s.push_str(if r.chance(1, 6) { "   " } else { " " });
+    if year < 2000 && r.chance(1, 3) {
+        s.push_str(&format!("{:02}", year - 1900)); // two digit years 70..99
+    } else {
+        s.push_str(&format!("{year}"));
+    }
+    s.push(' ');
+    if r.chance(1, 3) {
+        s.push_str(&format!("{h:02}:{mi:02}")); // no seconds
+    } else {
+        s.push_str(&format!("{h:02}:{mi:02}:{sec:02}"));
+    }
+    s.push(' ');
+    let numeric_zone;
+    match { let z = r.below(10); numeric_zone = z >= 3; z } {
+        0 => s.push_str(*r.pick(&["GMT", "UT", "Z", "gmt", "ut", "z"])),
+        1 => s.push_str(*r.pick(&["EST", "EDT", "CST", "CDT", "MST", "MDT", "PST", "PDT", "est", "pdt"])),
+        2 => s.push_str(*r.pick(&["A", "M", "N", "Y", "b", "XYZ", "QQQ", "abcde"])),
+        3 => s.push_str("-0000"),
+        _ => {
+            let o = r.range(-12, 14) * 60 + *r.pick(&[0i64, 0, 30, 45]);
+            s.push_str(&format!("{}{:02}{:02}", if o < 0 { '-' } else { '+' }, o.abs() / 60, o.abs() % 60));
+        }
+    }
+    if r.chance(1, 4) {
+        // a zone name inside the comment only after a numeric zone (see known finding rfc2822-zone-in-comment)
+        let c = *r.pick(&[" (CST)", " (comment)", "  (nested (comment) here)", " (a \\) b)", " ", "\t"]);
+        s.push_str(if c == " (CST)" && !numeric_zone { " (comment)" } else { c });
+    }
+    s
+}
+
 // ---------------------------------------------------------------------------------------------
 // generators
 
@@ -377,6 +478,16 @@ fn main() {
     ] {
         do_parse(&mut rep, s);
     }
+    for s in [
+        "18 Aug 2022 12:45:06 +0800", "18 Aug 99 12:45:06 +0800", "18 Aug 70 12:45 +0800", "Thu, 18 Aug 2022 12:45 +0800",
+        "Thu, 18 Aug 2022 12:45:06 GMT", "Thu, 18 Aug 2022 12:45:06 UT", "Thu, 18 Aug 2022 12:45:06 EST",
+        "Thu, 18 Aug 2022 12:45:06 PDT", "Thu, 18 Aug 2022 12:45:06 Z", "Thu, 18 Aug 2022 12:45:06 A",
+        "Thu, 18 Aug 2022 12:45:06 XYZ", "Thu, 18 Aug 2022 12:45:06 +0800 (CST)", "Thu, 18 Aug 2022 12:45:06 -0600 (CST)",
+        "Fri, 18 Aug 2022 12:45:06 +0800", "thu, 8 aug 2022 12:45:06 +0800", "Thu,  18   Aug  2022  12:45:06   +0800",
+        "Thu, 18 Aug 2022 12:45:06 -0000", "Thu, 18 Aug 2022 12:45:06 Y (CST)", "Thu, 18 Aug 2022 12:45:06 CEST",
+    ] {
+        do_git_rfc(&mut rep, &g, s);
+    }
     // ---- random
     let n = args.budget(2400, 40_000);
     for i in 0..n {
@@ -401,6 +512,10 @@ fn main() {
             }
         }
         // the git oracle: formatted absolute dates between 1970 and 2099, a few hundred per run
+        if i % 16 == 8 {
+            let s = gen_rfc_variant(&mut r);
+            do_git_rfc(&mut rep, &g, &s);
+        }
         if i % 16 == 0 {
             let t = Time::new(r.range(0, 4102444799 - 86400), (r.range(-12, 14) * 3600 + *r.pick(&[0i64, 1800, 2700])) as i32);
             let name = *r.pick(&["RFC2822", "GIT_RFC2822", "ISO8601", "ISO8601_STRICT", "GITOXIDE", "DEFAULT", "RAW", "UNIX"]);
